@@ -512,7 +512,7 @@ def specs_fast_sis(tier):
                 for full in (True, False):
                     if not full and len(I0) > 1:
                         continue
-                    b = (10 if thorough else 8) if n <= 3 else (8 if thorough else 7)
+                    b = (10 if thorough else 9) if n <= 3 else (8 if thorough else 7)
                     out.append(dict(fn="fast_SIS", n=n, edges=es, I0=list(I0), tau=0.3, gamma=0.7, tw=tw, rw=rw,
                                     tmax=6.0, menu=menu, budget=b, full=full, zero_w=(n > 3)))
         for (tau, gamma) in ((0.0, 0.7), (0.3, 0.0)):
